@@ -268,8 +268,10 @@ impl ValidIsographTemplateLiteral {
                 PathBuf::from(format!("{}", file_to_artifact.display()).replace('\\', "/"));
         }
 
-        // TODO Identify if this is needed
-        if file_to_artifact.starts_with(ISOGRAPH_FOLDER) {
+        // If we do not have to traverse upward (the artifact directory is the file's folder
+        // or below it), the path starts with a folder name, which would be resolved as a package
+        // name and not relative to the file. It has to start with ./
+        if !file_to_artifact.starts_with("..") {
             file_to_artifact = PathBuf::from(format!("./{}", file_to_artifact.display()));
         }
 
